@@ -378,8 +378,13 @@ def full_copy_vouched(ctx: Ctx, rule: str, ev: Evaluator, enum, full_name: str) 
             continue
         n += 1
         pth = cfg.find_path(tb, heads + [cfg.exit], avoid=avoid, include_src=False)
+        from .storerules import opaque_decision_on_path as _odp
+        keyv_ = loop.target.elts[1].id if isinstance(loop.target, (ast.Tuple, ast.List)) and len(loop.target.elts) == 2 and isinstance(loop.target.elts[1], ast.Name) else ""
+        opaque = _odp(ctx, f, pth, {keyv_}) if pth is not None and keyv_ else None
         if pth is None:
             rep.ok(rule, f.qname, desc, f.loc(loop))
+        elif opaque is not None:
+            rep.unknown(rule, f.qname, f"the iteration is decided by `{opaque}`, a method of a local object that is given the key: what vouches for the copy is not visible to this rule", f.loc(loop))
         else:
             rep.bad(rule, f.qname, desc, f.loc(loop), ["an iteration that makes no copy although the commit type is full and nothing vouches for an existing copy:"]
                     + witness_path(cfg, f, pth)[-12:] + ["a store opened with commit_type='links_only' writes the redirect record of '/w/a'; a later store with commit_type='full' keeps "
